@@ -78,7 +78,7 @@ def build(m: Dict[str, Any], note_as_object: bool = False, **db_kwargs):
     return db
 
 
-def build_morphed(m: Dict[str, Any], aspects=('names', 'types', 'settings'), **db_kwargs):
+def build_morphed(m: Dict[str, Any], aspects=('names', 'types', 'settings', 'refs'), **db_kwargs):
     """The same final content reached the long way round: a database is built from a DIFFERENT content (other table and
     column names, types, flags, defaults, notes, actions), rendered to SQL and DBML (whatever a renderer or a model object
     may remember is remembered now), and then edited in place, attribute by attribute, into the content of m.
@@ -86,7 +86,7 @@ def build_morphed(m: Dict[str, Any], aspects=('names', 'types', 'settings'), **d
     import copy
     from pydbml.classes import Note
     old = copy.deepcopy(m)
-    names, types, settings = ('names' in aspects), ('types' in aspects), ('settings' in aspects)
+    names, types, settings, refs = ('names' in aspects), ('types' in aspects), ('settings' in aspects), ('refs' in aspects)
     for t in old['tables']:
         if names:
             t['name'] = t['name'] + '_old'
@@ -111,6 +111,10 @@ def build_morphed(m: Dict[str, Any], aspects=('names', 'types', 'settings'), **d
             r['onupdate'], r['ondelete'] = r['ondelete'], r['onupdate']
             if r['name']:
                 r['name'] = r['name'] + '_old'
+        if refs:
+            # the other direction and the other inline-ness: which table holds the key, and where, starts out different
+            r['type'] = {'>': '<', '<': '-', '-': '>', '<>': '<>'}[r['type']]       # a bijection: distinct references stay distinct
+            r['inline'] = not r['inline']
     db = build(old, **db_kwargs)
     for kind in ('sql', 'dbml'):
         try:
@@ -137,4 +141,5 @@ def build_morphed(m: Dict[str, Any], aspects=('names', 'types', 'settings'), **d
         E.name = dec(e['name'])
     for R, r in zip(db.refs, m['refs']):
         R.on_update, R.on_delete, R.name = _opt(r['onupdate']), _opt(r['ondelete']), _opt(r['name'])
+        R.type, R.inline = dec(r['type']), r['inline']
     return db
